@@ -83,9 +83,14 @@ class RuleTable:
         for st in body:
             if isinstance(st, ast.Expr) and isinstance(st.value, ast.Call):
                 self._call(m, st.value, env)
+            elif isinstance(st, ast.Assign) and self._depth > 0 and len(st.targets) == 1 and isinstance(st.targets[0], ast.Name):
+                # a local of a registration helper: later statements see the new binding
+                env[st.targets[0].id] = subst(st.value, env)
             elif isinstance(st, ast.If):
-                v = self._eval_version_cond(m, st.test)
-                if v is None or self.both:
+                from .model import static_module_cond
+
+                v = static_module_cond(m, st.test, env if self._depth > 0 else None)
+                if v is None or (self.both and _mentions_version(st.test)):
                     if v is None and not _mentions_version(st.test):
                         # an unknown top-level condition: analyse both arms
                         pass
